@@ -7,6 +7,8 @@ reg(Prop('C15', [
                       'i16 displacement boundary both directions; u16 location-list length boundary; every reference kind to every '
                       'entry before/at/after the holder for every arrangement of 3 children (incl. deleted, base types, second unit '
                       'before/after) in DIE attributes and location lists; every CFI instruction kind x section x version'),
+    Stream('c15.nest', 1, 2, 'model', shards=1, timeout=120,
+           exhaustive='nesting depths 0..600 (all pass) and one depth beyond the stack (known finding)'),
 ], clauses=[], design_ref='§5 C15',
     level_text='placeholder',
     level_note='placeholder',
